@@ -3,7 +3,8 @@
 //! Space: sequences of resource declarations (full kind alphabet at length <= 2, class alphabet at length 3-4) x
 //! pipeline scenarios (0-2 pipelines, DefaultBindGroup 0..2, shared entry points) x use sites (which function touches
 //! which resource, directly or through a helper) x target configs {Dx, Vk, VkBa, Msl} x modes {all, named, no-pipeline};
-//! plus small spaces for reserved entry-point / resource names, numthreads forms and unbounded arrays.
+//! plus small spaces for reserved entry-point / resource names, numthreads forms, unbounded arrays, the syntactic position
+//! of the use site (every statement / expression position x allocator class) and the attribute lists of entry points.
 //!
 //! Oracle `reflect`: the annotations are re-read from the EMITTED source (HLSL: the text is parsed back; MSL: the tree
 //! handed to the formatter, tied to the emitted bytes by formatting it again) and compared with the returned metadata as
@@ -316,6 +317,9 @@ pub struct SrcInfo {
     pub pipelines: Vec<String>,
     /// pipeline name -> input names of the globals / cbuffers some entry point of the pipeline reaches
     pub reach: BTreeMap<String, BTreeSet<String>>,
+    /// pipeline name -> reachable name -> "" when a statement of a reachable function touches it, else the only way it is
+    /// reached (":via-default-argument", ":via-static-initialiser"); part of the is_used signature class
+    pub reach_how: BTreeMap<String, BTreeMap<String, &'static str>>,
     /// pipeline name -> (stage property of the pipeline block, function it names), e.g. ("PixelShader", "PSMAIN")
     pub stage_functions: BTreeMap<String, Vec<(String, String)>>,
 }
@@ -376,6 +380,10 @@ struct Walk<'m> {
     funcs: BTreeSet<u32>,
     globals: BTreeSet<String>,
     pending: Vec<ir::FunctionId>,
+    /// follow default-argument expressions of calls that omit the argument
+    with_defaults: bool,
+    /// follow the initialiser of a static global that is read
+    with_inits: bool,
 }
 
 impl<'m> Walk<'m> {
@@ -445,7 +453,12 @@ impl<'m> Walk<'m> {
         match e {
             E::Literal(_) | E::Variable(_) | E::MemberVariable(..) | E::EnumValue(_) | E::SizeOf(_) => {}
             E::Global(id) => {
-                self.globals.insert(self.m.global_registry[id.0 as usize].name.node.clone());
+                let g = &self.m.global_registry[id.0 as usize];
+                // reading a static global runs its initialiser
+                if self.globals.insert(g.name.node.clone()) && self.with_inits {
+                    let init = g.init.clone();
+                    self.init(&init);
+                }
             }
             E::ConstantVariable(id) => {
                 self.globals.insert(self.m.cbuffer_registry[id.0.0 as usize].name.node.clone());
@@ -472,6 +485,13 @@ impl<'m> Walk<'m> {
                 for a in args {
                     self.expr(a);
                 }
+                // parameters the call does not supply are evaluated from their default expressions
+                if let (true, Some(imp)) = (self.with_defaults, self.m.function_registry.get_function_implementation(*f)) {
+                    let defaults: Vec<ir::Expression> = imp.params.iter().skip(args.len()).filter_map(|p| p.default_expr.clone()).collect();
+                    for d in &defaults {
+                        self.expr(d);
+                    }
+                }
             }
             E::Constructor(_, slots) => {
                 for s in slots {
@@ -485,8 +505,8 @@ impl<'m> Walk<'m> {
             }
         }
     }
-    fn run(m: &'m ir::Module, entries: &[ir::FunctionId]) -> BTreeSet<String> {
-        let mut w = Walk { m, funcs: BTreeSet::new(), globals: BTreeSet::new(), pending: Vec::new() };
+    fn run(m: &'m ir::Module, entries: &[ir::FunctionId], with_defaults: bool, with_inits: bool) -> BTreeSet<String> {
+        let mut w = Walk { m, funcs: BTreeSet::new(), globals: BTreeSet::new(), pending: Vec::new(), with_defaults, with_inits };
         for e in entries {
             if w.funcs.insert(e.0) {
                 w.pending.push(*e);
@@ -510,10 +530,19 @@ pub fn analyse_source(src: &str) -> Result<SrcInfo, String> {
     collect_input_decls(&tree.root_definitions, &mut decls);
     let mut pipelines = Vec::new();
     let mut reach = BTreeMap::new();
+    let mut reach_how = BTreeMap::new();
     for p in &module.pipelines {
         let entries: Vec<ir::FunctionId> = p.stages.iter().map(|s| s.entry_point).collect();
         pipelines.push(p.name.node.clone());
-        reach.insert(p.name.node.clone(), Walk::run(&module, &entries));
+        let plain = Walk::run(&module, &entries, false, false);
+        let with_defaults = Walk::run(&module, &entries, true, false);
+        let all = Walk::run(&module, &entries, true, true);
+        let mut how = BTreeMap::new();
+        for n in &all {
+            how.insert(n.clone(), if plain.contains(n) { "" } else if with_defaults.contains(n) { ":via-default-argument" } else { ":via-static-initialiser" });
+        }
+        reach_how.insert(p.name.node.clone(), how);
+        reach.insert(p.name.node.clone(), all);
     }
     let mut stage_functions = BTreeMap::new();
     for d in &tree.root_definitions {
@@ -529,7 +558,7 @@ pub fn analyse_source(src: &str) -> Result<SrcInfo, String> {
             stage_functions.insert(pd.name.node.clone(), v);
         }
     }
-    Ok(SrcInfo { decls, pipelines, reach, stage_functions })
+    Ok(SrcInfo { decls, pipelines, reach, reach_how, stage_functions })
 }
 
 impl SrcInfo {
@@ -944,7 +973,13 @@ pub fn check_pipeline(p: &rssl::CompiledPipeline, em: &Emitted, cfg: Cfg, pipeli
                     if reachable {
                         acc.count(if b.is_used { "reachable_bindings_reported_used" } else { "reachable_bindings_reported_unused" });
                         if !b.is_used {
-                            out.push(Finding { field: "is_used", class: class.clone(), detail: format!("`{}` is reachable from an entry point of pipeline {} but reported is_used=false", b.name, pipeline.unwrap_or("")) });
+                            let how = pipeline.and_then(|p| info.reach_how.get(p)).and_then(|h| input.and_then(|n| h.get(n))).copied().unwrap_or("");
+                            out.push(Finding {
+                                field: "is_used",
+                                // one class per way of reaching when it is not an ordinary statement: the kind of resource plays no part
+                                class: if how.is_empty() { class.clone() } else { how[1..].to_string() },
+                                detail: format!("`{}` is reachable from an entry point of pipeline {}{} but reported is_used=false", b.name, pipeline.unwrap_or(""), if how.is_empty() { String::new() } else { format!(" (only {})", &how[1..]) }),
+                            });
                         }
                     } else if msl && input.is_some() {
                         acc.count(if b.is_used { "msl_unreachable_bindings_reported_used" } else { "msl_unreachable_bindings_reported_unused" });
@@ -1399,6 +1434,253 @@ fn special_cases() -> Vec<(String, Vec<(Decl, String)>, Scenario, [String; 4])> 
     v
 }
 
+// ---------------------------------------------------------------------------------------------
+// syntactic positions of the use site, attribute lists of entry points
+
+/// one complete program with what the generator knows about it
+pub struct SrcCase {
+    pub label: String,
+    pub src: String,
+    /// (pipeline, names that must be reachable, names that must not be) — checked against the IR walk
+    pub expect: Option<(String, Vec<String>, Vec<String>)>,
+    pub cfgs: Vec<Cfg>,
+}
+
+/// (label, extra definitions placed after the declarations, statement) for a use `x` of a resource; `e` = a uint
+/// expression whose evaluation touches the resource
+fn positions(x: &str) -> Vec<(String, String, String)> {
+    let e = format!("({}, 0u)", x);
+    let mut v: Vec<(String, String, String)> = Vec::new();
+    let mut add = |l: &str, defs: String, st: String| v.push((l.to_string(), defs, st));
+    add("expression-statement", String::new(), format!("{};", x));
+    add("var-initialiser", String::new(), format!("uint v0 = {};", e));
+    add("aggregate-initialiser", String::new(), format!("uint a0[2] = {{ 0u, {} }};", e));
+    add("assignment-rhs", String::new(), format!("uint v1; v1 = {};", e));
+    add("compound-assignment-rhs", String::new(), format!("uint v2 = 0u; v2 += {};", e));
+    add("binary-operand", String::new(), format!("uint v3 = 1u + {};", e));
+    add("unary-operand", String::new(), format!("uint v4 = ~{};", e));
+    add("sequence-first", String::new(), format!("({}, 1u);", e));
+    add("if-condition", String::new(), format!("if ({}) {{ }}", e));
+    add("if-body", String::new(), format!("if (true) {{ {}; }}", x));
+    add("ifelse-condition", String::new(), format!("if ({}) {{ }} else {{ }}", e));
+    add("ifelse-then", String::new(), format!("if (true) {{ {}; }} else {{ }}", x));
+    add("ifelse-else", String::new(), format!("if (true) {{ }} else {{ {}; }}", x));
+    add("while-condition", String::new(), format!("while ({}) {{ break; }}", e));
+    add("while-body", String::new(), format!("while (true) {{ {}; break; }}", x));
+    add("do-body", String::new(), format!("do {{ {}; }} while (false);", x));
+    add("do-condition", String::new(), format!("do {{ }} while ({});", e));
+    // for: init {absent, expression, definition} x condition {absent, present} x increment {absent, present}, the resource
+    // in each present clause or in the body
+    for init in 0..3 {
+        for cond in 0..2 {
+            for inc in 0..2 {
+                for place in 0..4 {
+                    // place: 0 init, 1 condition, 2 increment, 3 body
+                    if (place == 0 && init == 0) || (place == 1 && cond == 0) || (place == 2 && inc == 0) {
+                        continue;
+                    }
+                    let i = match (init, place == 0) {
+                        (0, _) => String::new(),
+                        (1, true) => e.clone(),
+                        (1, false) => "i = 0u".to_string(),
+                        (_, true) => format!("uint j = {}", e),
+                        (_, false) => "uint j = 0u".to_string(),
+                    };
+                    let c = match (cond, place == 1) {
+                        (0, _) => String::new(),
+                        (_, true) => e.clone(),
+                        (_, false) => "i < 1u".to_string(),
+                    };
+                    let a = match (inc, place == 2) {
+                        (0, _) => String::new(),
+                        (_, true) => e.clone(),
+                        (_, false) => "i++".to_string(),
+                    };
+                    let body = if place == 3 { format!("{}; break;", x) } else { "break;".to_string() };
+                    add(
+                        &format!("for-{}[init={} cond={} inc={}]", ["init", "condition", "increment", "body"][place], ["absent", "expression", "definition"][init], cond, inc),
+                        String::new(),
+                        format!("for ({}; {}; {}) {{ {} }}", i, c, a, body),
+                    );
+                }
+            }
+        }
+    }
+    add("switch-selector", String::new(), format!("switch ({}) {{ case 0: break; default: break; }}", e));
+    add("case-body", String::new(), format!("switch (0u) {{ case 0: {}; break; default: break; }}", x));
+    add("default-body", String::new(), format!("switch (0u) {{ case 0: break; default: {}; break; }}", x));
+    add("return-value", format!("uint h_ret() {{ return {}; }}\n", e), "h_ret();".to_string());
+    add("call-argument", String::new(), format!("u_id({});", e));
+    add("nested-call-argument", String::new(), format!("u_id(u_id({}));", e));
+    add("array-index", String::new(), format!("arr[{}];", e));
+    add("array-index-lvalue", String::new(), format!("arr[{}] = 1u;", e));
+    add("ternary-condition", String::new(), format!("uint t0 = {} ? 1u : 2u;", e));
+    add("ternary-true-arm", String::new(), format!("uint t1 = true ? {} : 2u;", e));
+    add("ternary-false-arm", String::new(), format!("uint t2 = true ? 2u : {};", e));
+    add("nested-block", String::new(), format!("{{ {{ {}; }} }}", x));
+    add("nested-loop-if", String::new(), format!("for (uint k = 0u; k < 1u; k++) {{ if (k) {{ {}; }} }}", x));
+    add("cast-operand", String::new(), format!("(float){};", e));
+    add("constructor-argument", String::new(), format!("uint2({}, 0u);", e));
+    add("swizzle-object", String::new(), format!("uint2({}, 0u).x;", e));
+    add("struct-member-assignment", String::new(), format!("S sv; sv.b = {};", e));
+    add("default-argument", format!("uint u_def(uint x = {}) {{ return x; }}\n", e), "u_def();".to_string());
+    add("static-global-initialiser", format!("static uint s_v = {};\n", e), "s_v;".to_string());
+    v
+}
+
+pub fn position_cases() -> Vec<SrcCase> {
+    let mut out = Vec::new();
+    for k in CLASS_REPS {
+        if k == K_PLAIN {
+            continue; // never referenced (see run_unit)
+        }
+        let d = Decl::plain(k);
+        let x = if k == K_CBUFFER { "r0_m" } else { "r0" };
+        for (label, defs, st) in positions(x) {
+            // 0 = in the entry point, 1 = in a helper it calls, 2 = in a function nothing calls
+            for site in 0..3 {
+                let pick = |s: usize| if s == site { st.as_str() } else { "" };
+                let locals = "uint i = 0u; uint arr[2] = { 0u, 0u };";
+                let src = format!(
+                    "struct S {{ float4 a; uint b; }};\n{}\nRWTexture2D<float4> rc;\nuint u_id(uint x) {{ return x; }}\n{}void h_pos() {{ {} {} }}\nvoid h_orphan() {{ {} {} }}\n[numthreads(8, 4, 2)]\nvoid CSMAIN() {{ rc; {} {} h_pos(); }}\nPipeline PC {{ ComputeShader = CSMAIN; DefaultBindGroup = 1; }}\n",
+                    decl_text(&d, "r0"),
+                    defs,
+                    locals,
+                    pick(1),
+                    locals,
+                    pick(2),
+                    locals,
+                    pick(0)
+                );
+                let (must, must_not) = if site == 2 { (vec!["rc".to_string()], vec!["r0".to_string()]) } else { (vec!["rc".to_string(), "r0".to_string()], vec![]) };
+                out.push(SrcCase {
+                    label: format!("position {} of kind {} in {}", label, k, ["entry", "helper", "orphan"][site]),
+                    src,
+                    expect: Some(("PC".to_string(), must, must_not)),
+                    // an unreachable use only matters where is_used may be false
+                    cfgs: if site == 2 { vec![Cfg::Msl] } else { ALL_CFGS.to_vec() },
+                });
+            }
+        }
+    }
+    out
+}
+
+const OTHER_ATTRIBUTES: [&str; 3] = ["WaveSize(32)", "outputtopology(\"triangle\")", "maxvertexcount(3)"];
+
+/// attribute lists of length 0..2
+fn attribute_lists() -> Vec<Vec<&'static str>> {
+    let mut v: Vec<Vec<&'static str>> = vec![vec![]];
+    for a in OTHER_ATTRIBUTES {
+        v.push(vec![a]);
+    }
+    for a in OTHER_ATTRIBUTES {
+        for b in OTHER_ATTRIBUTES {
+            v.push(vec![a, b]);
+        }
+    }
+    v
+}
+
+pub fn attribute_cases() -> Vec<SrcCase> {
+    let mut out = Vec::new();
+    let lists = attribute_lists();
+    for spelling in ["numthreads", "NumThreads"] {
+        for before in &lists {
+            for after in &lists {
+                if spelling != "numthreads" && before.len() + after.len() > 2 {
+                    continue;
+                }
+                let attrs = |nt: &str| -> String {
+                    let mut s = String::new();
+                    for a in before {
+                        s.push_str(&format!("[{}]\n", a));
+                    }
+                    s.push_str(&format!("[{}({})]\n", spelling, nt));
+                    for a in after {
+                        s.push_str(&format!("[{}]\n", a));
+                    }
+                    s
+                };
+                let label = format!("[{}] {} [{}]", before.join("]["), spelling, after.join("]["));
+                let mesh_fn = "void MSMAIN(uint3 dtid : SV_DispatchThreadID, out vertices VA o_vertices[64], out indices uint3 o_triangles[64]) {\n    r0;\n    SetMeshOutputCounts(64, 64);\n    VA vertex;\n    vertex.position = float4(0, 0, 0, 1);\n    o_vertices[dtid.x] = vertex;\n    o_triangles[dtid.x] = uint3(0, 1, 2);\n}\n";
+                // compute
+                out.push(SrcCase {
+                    label: format!("compute entry {}", label),
+                    src: format!("Texture2D<float4> r0;\nRWTexture2D<float4> r1;\n{}void CSMAIN() {{ r0; r1; }}\nPipeline PC {{ ComputeShader = CSMAIN; }}\n", attrs("8, 4, 2")),
+                    expect: None,
+                    cfgs: ALL_CFGS.to_vec(),
+                });
+                // mesh + pixel (the mesh entry needs exactly one topology on Metal: lists without it get one at the end)
+                let has_topology = before.iter().chain(after.iter()).any(|a| a.starts_with("outputtopology"));
+                out.push(SrcCase {
+                    label: format!("mesh entry {}", label),
+                    src: format!(
+                        "struct VA {{ float4 position : SV_Position; }};\nTexture2D<float4> r0;\nRWTexture2D<float4> r1;\n{}{}{}float4 PSMAIN() : SV_Target0 {{ r1; return float4(1, 1, 1, 1); }}\nPipeline PM {{ MeshShader = MSMAIN; PixelShader = PSMAIN; }}\n",
+                        attrs("32, 2, 1"),
+                        if has_topology { "" } else { "[outputtopology(\"line\")]\n" },
+                        mesh_fn
+                    ),
+                    expect: None,
+                    cfgs: ALL_CFGS.to_vec(),
+                });
+                // task + mesh (HLSL only: the Metal exporter has no task shaders)
+                out.push(SrcCase {
+                    label: format!("task entry {}", label),
+                    src: format!(
+                        "struct Payload {{ uint start; }};\nstruct VA {{ float4 position : SV_Position; }};\ngroupshared Payload lds_data;\nTexture2D<float4> r0;\n{}void TSMAIN(uint3 dtid : SV_DispatchThreadID) {{\n    lds_data.start = dtid.x;\n    DispatchMesh(4u, 1u, 1u, lds_data);\n}}\n[numthreads(64, 1, 1)]\n[outputtopology(\"triangle\")]\nvoid MSMAIN(uint3 dtid : SV_DispatchThreadID, in payload Payload data, out vertices VA o_vertices[64], out indices uint3 o_triangles[64]) {{\n    r0;\n    SetMeshOutputCounts(64, 64);\n    VA vertex;\n    vertex.position = float4(data.start, 0, 0, 1);\n    o_vertices[dtid.x] = vertex;\n    o_triangles[dtid.x] = uint3(0, 1, 2);\n}}\nPipeline PT {{ TaskShader = TSMAIN; MeshShader = MSMAIN; }}\n",
+                        attrs("16, 2, 2")
+                    ),
+                    expect: None,
+                    cfgs: vec![Cfg::Dx, Cfg::Vk, Cfg::VkBa],
+                });
+            }
+        }
+    }
+    out
+}
+
+fn run_src_case(c: &SrcCase, acc: &mut Acc) {
+    let info = match guard(|| analyse_source(&c.src)) {
+        Ok(Ok(i)) => i,
+        Ok(Err(_)) => {
+            acc.evals += 1;
+            acc.count("rejected_by_front_end");
+            return;
+        }
+        Err(pi) => {
+            acc.evals += 1;
+            acc.count("front_end_panics(reported under C08)");
+            acc.count(&format!("front_end_{}", pi.signature()));
+            return;
+        }
+    };
+    if let Some((p, must, must_not)) = &c.expect {
+        let r = info.reach.get(p).cloned().unwrap_or_default();
+        if must.iter().any(|n| !r.contains(n)) || must_not.iter().any(|n| r.contains(n)) {
+            acc.violation(Violation {
+                signature: "machinery|reachability-model".into(),
+                detail: format!("{}: generator expects {:?} reachable and {:?} not, IR walk finds {:?}", c.label, must, must_not, r),
+                replay: replay_text(&c.src, Cfg::Msl, &Mode::All),
+            });
+        }
+    }
+    for cfg in &c.cfgs {
+        check_case(&c.src, *cfg, &Mode::All, &info, &mut BTreeMap::new(), acc);
+    }
+}
+
+fn run_src_space(ctx: &Ctx, rep: &mut Report, name: &str, cases: &[SrcCase]) {
+    let r = run_par(ctx, cases.len() as u64, 8, |idx, acc| {
+        let c = &cases[idx as usize];
+        run_src_case(c, acc);
+        if idx % 997 == 3 {
+            acc.sample(obj(vec![("case", c.label.as_str().into()), ("source", c.src.as_str().into())]));
+        }
+    });
+    rep.absorb(name, r);
+}
+
 pub fn run(ctx: &Ctx) -> i32 {
     let mut rep = Report::new("exploration");
     rep.rule = "a case = one rssl::compile call (source x target config x mode) whose emitted source is re-read and compared with the returned metadata; non-trivial = accepted and the pipeline reports at least one binding or stage; distinct = different (config, metadata, stage list)".into();
@@ -1418,6 +1700,14 @@ pub fn run(ctx: &Ctx) -> i32 {
     });
     rep.cov("special_cases", Json::Arr(vec![format!("{} entry-point names x 5 pipeline shapes", ENTRY_NAMES.len()).into(), format!("{} resource names x 7 kinds x 2 forms", RESOURCE_NAMES.len()).into(), format!("{} numthreads forms x 3 shapes", NUMTHREADS.len()).into(), "unbounded arrays of 22 kinds x 4 group forms x bindless".into()]));
     rep.absorb("names_threads_unbounded", r);
+
+    // ---- syntactic position of the use site x allocator class; attribute lists around [numthreads] on compute / mesh / task entries
+    let pos = position_cases();
+    rep.cov("use_site_positions", Json::Int(positions("r0").len() as i64));
+    run_src_space(ctx, &mut rep, "use_site_positions", &pos);
+    let attrs = attribute_cases();
+    rep.cov("entry_attribute_lists", Json::Arr(vec![format!("{} lists of 0-2 attributes from {:?} before and after [numthreads] (and spelled [NumThreads] for <= 2 others) x compute / mesh+pixel / task+mesh entries", attribute_lists().len(), OTHER_ATTRIBUTES).into()]));
+    run_src_space(ctx, &mut rep, "entry_attribute_lists", &attrs);
 
     // ---- length 1, full alphabet
     let mut scs1 = vec![sc(Shape::None, 0, 0)];
